@@ -149,9 +149,96 @@ def r2_repetitions_make_progress(ctx, rule="C07.R2"):
     ctx.require(rule, 15)
 
 
+def _proj_chain(o):
+    """(root, ('field name' ...)) of a place-like origin; None when it is not a projection of a
+    parameter / call result"""
+    chain = []
+    o = mir.strip_all(o)
+    while o[0] in ("field", "downcast", "index"):
+        if o[0] == "field":
+            chain.append(str(o[2]))
+        elif o[0] == "index":
+            chain.append("[]")
+        o = mir.strip_all(o[1])
+    if o[0] == "call" and len(o[2]) == 1:
+        # iterator / as_ref / deref adapters keep the subtree
+        r = _proj_chain(o[2][0])
+        if r is not None:
+            return (r[0], r[1] + tuple(reversed(chain)))
+    if o[0] not in ("param",):
+        return None
+    return (o, tuple(reversed(chain)))
+
+
+def r5_no_double_descent(ctx, rule="C07.R5"):
+    """`bounded time ... as long as nesting depth stays within a few hundred levels`: a traversal of
+    the program tree (the checker's visitors and rewriters) must descend into each subtree once.  A
+    method that hands the same subtree - or a subtree and one of its own parts - to its own traversal
+    twice on one path doubles the work at every level of nesting: 2^depth visits, minutes at depth 30.
+    For every method of the three traversal traits (impls and defaults) all pairs of calls
+    `self.visit_*(x)` that lie on a common path are compared: x and y must be disjoint subtrees of
+    the method's arguments."""
+    from . import c08
+    prog = ctx.prog
+    traits = (c08.PCL, c08.ER, c08.VIS)
+    fns = []
+    for f in prog.fns.values():
+        if f.crate != "rusty_linter" or f.kind == "closure":
+            continue
+        tr = f.impl.get("trait") if f.impl else None
+        if tr in traits:
+            fns.append(f)
+    for tid in traits:
+        for it in prog.traits[tid]["items"]:
+            g = prog.fns.get(it["id"])
+            if g is not None and it.get("has_default") and g not in fns:
+                fns.append(g)
+    n = 0
+    for f in sorted(fns, key=lambda f: f.id):
+        body = f.body
+        pv = mir.Prov(body)
+        sites = []
+        for b, t in body.calls():
+            if t.get("ctrait") not in traits or len(t["args"]) < 2:
+                continue
+            recv = mir.strip_all(pv.of_operand(t["args"][0]))
+            if recv != ("param", 0):
+                continue        # a delegate, not this traversal itself
+            ch = _proj_chain(pv.of_operand(t["args"][1]))
+            if ch is None:
+                continue
+            sites.append((b, t, ch))
+        n += 1
+        dup = None
+        for i, (b1, t1, c1) in enumerate(sites):
+            for b2, t2, c2 in sites[i + 1:]:
+                if c1[0] != c2[0]:
+                    continue
+                k = min(len(c1[1]), len(c2[1]))
+                if c1[1][:k] != c2[1][:k]:
+                    continue        # disjoint parts
+                if b2 in body.reachable(b1) or b1 in body.reachable(b2):
+                    dup = (t1, c1, t2, c2)
+        name = f.path.split("::", 1)[1]
+        if dup:
+            t1, c1, t2, c2 = dup
+            ctx.violation(rule, "%s:%s" % (rule, name), f.loc,
+                          "%s descends twice into the same part of the tree on one path: %s(%s) at line %s and "
+                          "%s(%s) at line %s - every level of nesting doubles the work (2^depth visits), so checking "
+                          "a deeply nested but valid expression no longer ends in bounded time"
+                          % (name, (t1.get("cpath") or "").split("::")[-1], ".".join(c1[1]) or "the whole node", t1.get("ln"),
+                             (t2.get("cpath") or "").split("::")[-1], ".".join(c2[1]) or "the whole node", t2.get("ln")),
+                          {"function": f.path})
+        else:
+            ctx.ok(rule, "%s:%s" % (rule, name), f.loc, "%d descents, pairwise disjoint or on different paths" % len(sites))
+    ctx.analysed_units(rule, traversal_methods=n)
+    ctx.require(rule, 60)
+
+
 def run(ctx):
     common.install(ctx)
     panics.r_audit(ctx, "C07.R1", scope="frontend")
     r2_repetitions_make_progress(ctx)
     r3_error_position(ctx)
     r4_token_classes_within_converter_domains(ctx)
+    r5_no_double_descent(ctx)
